@@ -16,7 +16,7 @@ int main() {
         bool a = sub.next();
         pub.kick(&sub);
         bool b = sub.next();                       // expected false (kicked)
-        printf("kicked: first=%d second=%d value=%d\n", a, b, sub.value());
+        printf("kicked: first=%d second=%d\n", a, b);
         bad |= b;
     }
     {   // (b) the call really blocks; the publisher thread publishes 2 and 3
@@ -25,16 +25,15 @@ int main() {
         pub.publish(1);
         bool a = sub.next();
         std::thread t([&] {
-            while (pub.get_queue().use_count() < 0) {}
             std::this_thread::sleep_for(std::chrono::milliseconds(100));
             pub.publish(2);
         });
         bool b = sub.next();                       // blocks until 2 is published
-        int v = sub.value();                       // expected 2
+        int v = b ? sub.value() : -1;              // expected 2
         t.join();
         pub.publish(3);
         bool c = sub.next();
-        printf("blocked: %d,%d,%d values 1,%d,%d\n", a, b, c, v, sub.value());
+        printf("blocked: %d,%d,%d values 1,%d,%d\n", a, b, c, v, c ? sub.value() : -1);
         bad |= (v != 2) << 1;
     }
     return bad;
